@@ -9,6 +9,7 @@ and the obvious list operations (`specStep`).
 -/
 import NumbersModel.Lemmas.Grid
 import NumbersModel.Lemmas.Cache
+import NumbersModel.Lemmas.TablePipeline
 namespace NumbersModel.Props.C03
 open NumbersModel NumbersModel.Grid
 
@@ -102,11 +103,44 @@ theorem structural_ops_pure (empty : α) (d : List (State α)) (nr nc i : Nat) :
     docStep empty d (.addTable nr nc) = .ok (d ++ [init empty nr nc]) ∧
     docStep empty d (.rename i) = .ok d ∧ docStep empty d .save = .ok d := ⟨rfl, rfl, rfl⟩
 
-/-- `save` is pure on the grids and can be repeated (that the saved file reopens to `abs s` is
-    C01's `table_roundtrip`; here it is the lock-step save/reopen part of the correspondence). -/
+/-- `save` leaves every in-memory grid as it is and can be repeated (document level: the model's
+    `save` step is the identity on the list of tables; what the saved file *contains* is
+    `saved_grid_reopens` below). -/
 theorem save_pure (empty : α) (d : List (State α)) :
     docStep empty d .save = .ok d ∧
     (do let d1 ← docStep empty d .save; docStep empty d1 .save) = .ok d := ⟨rfl, rfl⟩
+
+/-- **the saved file reopens to the plain grid.** Instantiate the cell payload of the grid model
+    with the storage-level cell (`TablePipeline.TCell`). For every well-formed table state `s` —
+    in particular every state reachable by any edit history (`wf_reachable`) — with at least one
+    row, within the library's limits, whose cells can be stored (`ValidCell`) and whose merge map
+    names the merged placeholders: saving the values of `s` (`saveTable` =
+    `recalculate_table_data` on `Table._data`) and reopening (`loadTable` = `Table.__init__`)
+    never raises, yields exactly `num_rows × num_cols` cells, and the grid read is the plain grid
+    `abs s` cell by cell (class, payload, ids, text; `forgetKey` hides only the re-assigned string
+    key). Together with `refines_history`: open, edit by any accepted history, save, reopen ≙ the
+    plain-grid fold of the history. -/
+theorem saved_grid_reopens (mr : Nat → Nat → Bool) (s : State TablePipeline.TCell) (h : WF s)
+    (hne : 1 ≤ s.numRows) (hrows : s.numRows ≤ Gen.MAX_ROW_COUNT) (hcols : s.numCols ≤ Gen.MAX_COL_COUNT)
+    (hvalid : ∀ row ∈ (abs s).cells, ∀ c ∈ row, TablePipeline.ValidCell c)
+    (hmr : TablePipeline.MergeAgrees mr (abs s).cells) :
+    ∃ sv g, TablePipeline.saveTable (abs s).cells = .ok sv ∧ TablePipeline.loadTable mr sv = .ok g ∧
+      (sv.numRows : Int) = (abs s).nrows ∧ (sv.numCols : Int) = (abs s).ncols ∧
+      g.map (·.map TablePipeline.forgetKey) = (abs s).cells.map (·.map TablePipeline.viewT) := by
+  obtain ⟨h1, h2, h3, _⟩ := h
+  have hlen : ((abs s).cells.length : Int) = s.numRows := by simpa [Grid.abs] using h1
+  have hne' : (abs s).cells ≠ [] := by
+    intro he; rw [he] at hlen; simp at hlen; omega
+  have hrect : TablePipeline.Rect (abs s).cells s.numCols.toNat := by
+    intro row hrow
+    simp only [Grid.abs, List.mem_map] at hrow
+    obtain ⟨r, hr, rfl⟩ := hrow
+    have := h3 r hr
+    simp only [List.length_map]
+    omega
+  obtain ⟨sv, g, hs, hg, a1, a2, _, hall⟩ := TablePipeline.load_save_rel mr (abs s).cells s.numCols.toNat hne'
+    hrect (by omega) (by omega) hvalid hmr
+  refine ⟨sv, g, hs, hg, by rw [a1]; exact hlen, by rw [a2]; simp only [Grid.abs]; omega, TablePipeline.forget_of_rel hall⟩
 
 /-- all tables of all documents stay well-formed under any document-level history. -/
 theorem wf_doc_step (empty : α) (d d' : List (State α)) (op : DocOp α) (hwf : ∀ s ∈ d, WF s)
@@ -135,6 +169,16 @@ example : step (0 : Nat) (init 0 3 3) (.delRow 3 none) = .error .IndexError := b
 example : step (0 : Nat) (init 0 3 3) (.write (-1) 0 5) = .error .IndexError := by decide
 example : FillOK (init (0 : Nat) 3 3) (.addRow 2 none (some 5)) := by
   simp only [FillOK, init, Gen.MAX_ROW_COUNT, Gen.MAX_COL_COUNT]; omega
+
+/-- `saved_grid_reopens` on an edited table: grow a 2×2 table by a write beyond both edges, delete
+    the first column, save, reopen — the grid read is the plain grid of the edited table. -/
+def emptyT : TablePipeline.TCell := ⟨.empty, [], [], none, {}⟩
+def editedT : State TablePipeline.TCell :=
+  runOps emptyT (init emptyT 2 2) [.write 2 2 ⟨.text, [], "hi".toList, none, {}⟩, .delCol 1 (some 0)]
+example : (editedT.numRows, editedT.numCols) = (3, 2) := by decide +kernel
+example : ((TablePipeline.saveTable (Grid.abs editedT).cells).bind (TablePipeline.loadTable fun _ _ => false)).map
+      (fun g => g.map (fun r => r.map TablePipeline.forgetKey))
+    = .ok ((Grid.abs editedT).cells.map (fun r => r.map TablePipeline.viewT)) := by decide +kernel
 
 /-! ### the pinned tree violates the invariant (before fixes/C03-edit-counts.patch)
 
